@@ -149,7 +149,7 @@ func (s *c19Sys) Step(hist []c19Ev) (string, core.Verdict) {
 	if total > 0 {
 		exp = float64(correct) / float64(total)
 	}
-	if res != exp || res < 0 || res > 1 || math.IsNaN(res) {
+	if !accEq(res, exp) || res < 0 || res > 1 || math.IsNaN(res) {
 		return "", core.Fail("Result = %v, expected matched/total = %d/%d = %v", res, correct, total, exp)
 	}
 	return fmt.Sprintf("%d/%d", correct, total), core.Pass()
@@ -202,7 +202,7 @@ func checkC19(c *core.Ctx) {
 						return core.Fail("Accumulate of a batch of %d: %v", n, err)
 					}
 					r, _ := m.Result()
-					if r != float64(k)/float64(n) {
+					if !accEq(r, float64(k)/float64(n)) {
 						return core.Fail("one batch of %d positions with %d matches: Result %v, expected %d/%d = %v", n, k, r, k, n, float64(k)/float64(n))
 					}
 					// the same data split in two at every cut point of a coarse grid
@@ -210,7 +210,7 @@ func checkC19(c *core.Ctx) {
 						m2 := metrics.NewAccuracy()
 						c19Apply(m2, c19Ev{Kind: "batch", P: p[:cut], T: t[:cut]})
 						c19Apply(m2, c19Ev{Kind: "batch", P: p[cut:], T: t[cut:]})
-						if r2, _ := m2.Result(); r2 != r {
+						if r2, _ := m2.Result(); !accEq(r2, r) {
 							return core.Fail("%d positions, %d matches: Result %v as one batch but %v split at %d", n, k, r, r2, cut)
 						}
 					}
@@ -242,7 +242,7 @@ func checkC19(c *core.Ctx) {
 				c19Apply(m, c19Ev{Kind: "invalid", Inv: []string{"nilpred", "mismatch", "rank2"}[k%3]})
 			}
 			r, err := m.Result()
-			if err != nil || r != float64(correct)/float64(total) {
+			if err != nil || !accEq(r, float64(correct)/float64(total)) {
 				return core.Fail("after %d batches: Result %v (err %v), expected %d/%d", k+1, r, err, correct, total)
 			}
 		}
@@ -277,7 +277,7 @@ func checkC19(c *core.Ctx) {
 					}
 					start = cut
 				}
-				if r, _ := m.Result(); r != exp {
+				if r, _ := m.Result(); !accEq(r, exp) {
 					return core.Fail("%d positions (%d matches) split at %v: Result %v, expected %v", n, matched, cuts, r, exp)
 				}
 			}
@@ -328,10 +328,10 @@ func checkC19(c *core.Ctx) {
 								matched++
 							}
 						}
-						if r != float64(matched)/float64(n) {
+						if !accEq(r, float64(matched)/float64(n)) {
 							return core.Fail("Result %v for %v/%v, expected %d/%d", r, p, t, matched, n)
 						}
-					} else if r != ref0 {
+					} else if !accEq(r, ref0) {
 						return core.Fail("Result depends on the partition: %v vs %v for data %v/%v, cut mask %b", r, ref0, p, t, cut)
 					}
 				}
